@@ -11,7 +11,8 @@ THEOREMS = ["C13_write_order", "C13_no_reuse_parametric", "C13_ring_window", "C1
             "C13_generated_layer_consistent", "C13_reuse_if_NB_is_2_refuted", "C13_reuse_if_PB_is_2_refuted",
             "C13_reuse_if_writer_queue_is_2_refuted", "C13_depth1_deadlock", "C13_inorder_once", "C13_sequential_equiv",
             "C13_sequential_equiv_legacy", "C13_sequential_equiv_lz4f", "C13_tpool_compress_never_full",
-            "C13_waiters_homogeneous", "C13_never_full_legacy", "C13_never_full_lz4f"]
+            "C13_waiters_homogeneous", "C13_never_full_legacy", "C13_never_full_lz4f",
+            "C13_no_deadlock", "C13_stuck_is_complete", "C13_no_deadlock_legacy", "C13_no_deadlock_lz4f"]
 ORACLES = ["mt"]
 CORRESPONDENCE = [
     "WriteReg.arrive model == LZ4IO_checkWriteOrder (expectedRank, capacity, totalCSize, bytes written by each call, every slot of the descriptor array)",
@@ -37,8 +38,9 @@ ASSUMPTIONS = ["mutex-protected sections are atomic; code between synchronisatio
                "(so interleavings finer than the model's steps are equivalent to one of them); races on other C variables and the hardware memory model are outside the model (TSan run is the only evidence there)",
                "no spurious condition-variable wake-ups (they only re-test a predicate)",
                "pthread variant of threadpool.c (the Windows completion-port variant is not modelled); data are abstract in the pipeline model (block k = [k])",
-               "NOT proved: progress/termination for unbounded N (C13_no_deadlock_full_statement, C13_terminates_full_statement); proved instead: never-full + homogeneous waiters for all N, "
-               "bounded exhaustive exploration as supplement, C13_depth1_deadlock as the negative instance",
+               "deadlock freedom (C13_no_deadlock: every reachable non-final state has an enabled pick) is PROVED for the compression pipelines, all N >= 1, chunk counts, tPool depth >= 2, wPool depth >= 1; "
+               "NOT proved: termination (C13_terminates_full_statement, a bound on schedule length) and deadlock freedom of the two decode pipelines (those are covered by the bounded exploration, "
+               "the schedule replays and the end-to-end runs only); C13_depth1_deadlock is the negative instance at depth 1",
                "decode pipelines: single frame per run in the model; concatenated frames are covered by the end-to-end runs only"]
 
 def build(tier):
@@ -398,7 +400,7 @@ def run_sched(st, case):
         del payload
         legacy = pipe in ("CL", "DL")
         ref = os.path.join(d, "ref.lz4")
-        if not cli(res, ctx["mt"], ["-f", "-q", "-T1"] + copts + (["-l"] if legacy else []) + [src, ref], "MT compression -T1", detail):
+        if not cli(res, ctx["mt"], ["-f", "-q", "-T1"] + (["-l"] if legacy else []) + [src, ref], "MT compression -T1", detail):
             return res
         if pipe in ("CL", "CF"):
             args = ["-f", "-q", "-T%d" % N] + (["-l"] if legacy else []) + [src, os.path.join(d, "o")]
